@@ -13,9 +13,6 @@ import (
 var userConfig = config.New("templates", ".tw.html", "", false)
 var customFunc = config.NewFunc()
 
-// usesTemplates is a flag to check if user uses Textwire templates or not
-var usesTemplates = false
-
 func NewTemplate(opt *config.Config) (*Template, error) {
 	Configure(opt)
 
@@ -34,8 +31,6 @@ func NewTemplate(opt *config.Config) (*Template, error) {
 }
 
 func EvaluateString(inp string, data map[string]any) (string, error) {
-	usesTemplates = false
-
 	prog, errs := parseStr(inp)
 
 	if len(errs) != 0 {
@@ -60,8 +55,6 @@ func EvaluateString(inp string, data map[string]any) (string, error) {
 }
 
 func EvaluateFile(absPath string, data map[string]any) (string, error) {
-	usesTemplates = false
-
 	content, err := fileContent(absPath)
 	if err != nil {
 		return "", fail.FromError(err, 0, absPath, "template").Error()
@@ -126,8 +119,6 @@ func RegisterBoolFunc(name string, fn config.BoolCustomFunc) error {
 }
 
 func Configure(opt *config.Config) {
-	usesTemplates = true
-
 	if opt == nil {
 		return
 	}
